@@ -124,20 +124,27 @@ deriving Repr, DecidableEq
 def stripPrefix (p s : List Char) : Option (List Char) :=
   if p.isPrefixOf s then some (s.drop p.length) else none
 
+/-- `FIXED_HEAP_REGEX = ^FixedHeapSize:(?P<size>\\d+[kKmMgGtT]?)$`: the captured size. -/
+def fixedPart (s : List Char) : Option (List Char) :=
+  (stripPrefix "FixedHeapSize:".toList s).filter matchSize
+
+/-- `DYNAMIC_HEAP_REGEX = ^DynamicHeapSize:(?P<min>\\d+[kKmMgGtT]?),(?P<max>\\d+[kKmMgGtT]?)$`: the two
+captures (sizes contain no comma, so the text after the prefix must split into exactly two). -/
+def dynParts (s : List Char) : Option (List Char × List Char) :=
+  match stripPrefix "DynamicHeapSize:".toList s with
+  | none => none
+  | some x =>
+    match splitOn ',' x with
+    | [a, b] => if matchSize a && matchSize b then some (a, b) else none
+    | _ => none
+
 /-- `<GCTriggerSelector as FromStr>::from_str` -/
 def triggerFromStr (s : List Char) : Option Trigger :=
   if s = [] then none else
-  match (stripPrefix "FixedHeapSize:".toList s).filter matchSize with
+  match fixedPart s with
   | some x => (parseSize x).map Trigger.fixed
   | none =>
-    let dyn : Option (List Char × List Char) :=
-      match stripPrefix "DynamicHeapSize:".toList s with
-      | none => none
-      | some x =>
-        match splitOn ',' x with
-        | [a, b] => if matchSize a && matchSize b then some (a, b) else none
-        | _ => none
-    match dyn with
+    match dynParts s with
     | some (a, b) =>
       match parseSize a with
       | none => none
